@@ -7,6 +7,7 @@ import (
 	"go/constant"
 	"go/token"
 	"go/types"
+	"sort"
 	"strings"
 
 	"golang.org/x/tools/go/ssa"
@@ -19,6 +20,7 @@ func checkC12(c *Ctx) {
 	ruleRefClosure(c)
 	ruleNormProv(c)
 	ruleNormWS(c)
+	ruleNormReader(c)
 	ruleSameMachine(c)
 	ruleSpecBoundsFor(c, "C12")
 	c.Rule("TRAV", "Explicit-stack traversals whose visiting order is observable pop from the end and push children by descending index (a stack; a queue would visit breadth-first): containers are visited in document order, so 'first definition' means first in source.")
@@ -664,4 +666,67 @@ func ruleNormWS(c *Ctx) {
 	if n < 2 {
 		c.Undecided("NORM-WS", "instance-count", token.NoPos, fmt.Sprintf("%d white-space classifications found in the normaliser, at least 2 expected", n))
 	}
+}
+
+// NORM-READER: the label normaliser reads document bytes only through the NUL-mapping reader.
+func ruleNormReader(c *Ctx) {
+	c.Rule("NORM-READER", "Definitions are normalised while the block's buffer still holds padded zero bytes for each NUL of the input; uses are normalised after the padding has been filled in with U+FFFD. The two agree only because the normaliser reads label bytes through inlineByteReader, whose current() presents padding as U+FFFD. In the normaliser (transformLinkReferenceSpan and module functions it calls with the source), the source bytes are therefore never indexed, sliced or converted directly — the source parameter is only handed to the reader's constructor. A fast path that folds source[span] directly gives a definition with a NUL in its label a key no use can match.")
+	p := c.P
+	fn := p.Func("transformLinkReferenceSpan")
+	if !c.NeedFunc("NORM-READER", fn, "transformLinkReferenceSpan") {
+		return
+	}
+	var src ssa.Value
+	for _, q := range fn.Params {
+		if sl, ok := q.Type().Underlying().(*types.Slice); ok {
+			if b, ok := sl.Elem().Underlying().(*types.Basic); ok && b.Kind() == types.Uint8 {
+				src = q
+				break
+			}
+		}
+	}
+	if src == nil {
+		c.Undecided("NORM-READER", "transformLinkReferenceSpan:source", fn.Pos(), "no byte-slice source parameter")
+		return
+	}
+	var bad []string
+	var pos token.Pos
+	handed := 0
+	for _, r := range refsOf(src) {
+		switch x := r.(type) {
+		case *ssa.Call:
+			g := x.Call.StaticCallee()
+			if g != nil && p.InModule(g) && g.Signature.Results().Len() == 1 {
+				if pt, ok := g.Signature.Results().At(0).Type().Underlying().(*types.Pointer); ok && typeName(pt.Elem()) == "inlineByteReader" {
+					handed++
+					continue
+				}
+			}
+			if _, isLen := isBuiltinCall(x, "len"); isLen {
+				continue
+			}
+			bad = append(bad, "passed to "+calleeName(&x.Call))
+			pos = x.Pos()
+		case *ssa.DebugRef:
+		case *ssa.Slice:
+			bad = append(bad, "sliced directly")
+			pos = x.Pos()
+		case *ssa.IndexAddr:
+			bad = append(bad, "indexed directly")
+			pos = x.Pos()
+		case *ssa.Convert:
+			bad = append(bad, "converted directly")
+			pos = x.Pos()
+		default:
+			if in, ok := r.(ssa.Instruction); ok {
+				bad = append(bad, fmt.Sprintf("used by %T", in))
+				pos = in.Pos()
+			}
+		}
+	}
+	if !pos.IsValid() {
+		pos = fn.Pos()
+	}
+	sort.Strings(bad)
+	c.Check(len(bad) == 0 && handed > 0, "NORM-READER", "transformLinkReferenceSpan", pos, "the label's source bytes are read without the reader that maps NUL padding: "+strings.Join(bad, ", "))
 }
